@@ -430,3 +430,46 @@ func HarnessC10Segments(st any) {
 }
 
 func SetupC10Segments() any { return SetupC10Parse() }
+
+// ---- hostname length limits ------------------------------------------------------------------
+
+func SetupC10HostLimits() any {
+	r, err := fox.New()
+	if err != nil {
+		panic(err)
+	}
+	return &c10State{r: r, mp: 65535, mk: 65535}
+}
+
+func repeatByte(c byte, n int) string {
+	b := make([]byte, n)
+	for i := range b {
+		b[i] = c
+	}
+	return string(b)
+}
+
+// HarnessC10HostLimits: hostnames around the 63-byte label and 255-byte total limits: nl full labels of
+// 63 letters, then a label of l letters, then a fully symbolic window of w bytes, then "/".
+func HarnessC10HostLimits(st any) {
+	s := st.(*c10State)
+	nl, l, w := sym.Param("nl"), sym.Param("l"), sym.Param("w")
+	host := ""
+	for i := 0; i < nl; i++ {
+		host += repeatByte('a', 63) + "."
+	}
+	host += repeatByte('b', l) + sym.String("win", w)
+	p := host + "/"
+	rte, err := s.r.NewRoute(p, noopHandler)
+	want := refGrammar(p, s.mp, s.mk)
+	switch want.v {
+	case gDontCare:
+		return
+	case gAccept:
+		sym.Cover("long hostname accepted")
+		sym.Assert(err == nil && rte != nil && rte.Hostname()+rte.Path() == p && len(rte.Hostname()) == want.hostEnd, "hostname within the 63/255 limits must be accepted")
+	default:
+		sym.Cover("long hostname rejected")
+		sym.Assert(err != nil && errors.Is(err, fox.ErrInvalidRoute), "hostname beyond the 63/255 limits (or otherwise invalid) must be rejected with ErrInvalidRoute")
+	}
+}
